@@ -272,7 +272,7 @@ func (g *Gen) Expr(depth int) Expr {
 }
 
 // sortable scalar symbols of things
-var SortSyms = []string{"s", "ism", "ibig", "flt", "b", "t", "grp", "owner", "id"}
+var SortSyms = []string{"s", "ism", "ibig", "flt", "b", "t", "grp", "owner", "id", "uk"}
 
 func (g *Gen) Sort(max int) []SortF {
 	r := g.R
